@@ -206,6 +206,8 @@ def rule_component_extraction(ctx):
     ENUM_T = ("core::iter::traits::iterator::Iterator::enumerate", "core::slice::iter", "core::ops::deref::Deref::deref", "core::iter::traits::collect::IntoIterator::into_iter")
     # loop form, in the function itself or in a helper that builds the table from (a slice of) the component vector:
     # `for (i, a) in component.iter().enumerate() { mapping[a.id()] = Some(i) }`
+    len_form = []
+
     def loop_form(y):
         """parameters of y whose enumeration index is stored as the new id; None when no store is found"""
         found = None
@@ -222,6 +224,41 @@ def rule_component_extraction(ctx):
             if inner is None:
                 continue
             found = found or set()
+            # `mapping[a.id()] = Some(labels.len()); labels.push(a.label().clone())`: the new id is the position the label is about to take
+            lens = [o for o in origins(y, inner, transparent=()) if o.kind == "call" and callee_decl(o.data) == "alloc::vec::Vec::len"]
+            if lens and y is ex:
+                from ..prov import prov as _pv, roots as _roots, subterms as _sub
+
+                vroots = set()
+                for o in lens:
+                    vroots |= _roots(prog, y, o.site.node["args"][0])
+                lab_roots = set()
+                for s2 in y.calls():
+                    if callee_matches(callee_of(s2), r"ArgumentSet::new_with_labels$"):
+                        lab_roots |= _roots(prog, y, s2.node["args"][0])
+                pushes = [s2 for s2 in y.calls() if callee_decl(callee_of(s2)) == "alloc::vec::Vec::push" and (_roots(prog, y, s2.node["args"][0]) & vroots) and y.reaches(st.bb, s2.bb)]
+                same_elem = False
+                idx_elems = set()
+                for l in ([nd["dst"]["l"]]):
+                    for d0 in y.defs.get(l, []):
+                        if d0.si is None and callee_decl(callee_of(d0)) == "core::ops::index::IndexMut::index_mut":
+                            for e in _pv(prog, y, d0.node["args"][1]):
+                                idx_elems |= {t for t in _sub(e) if isinstance(t, tuple) and t[0] == "elem"}
+                for s2 in pushes:
+                    for e in _pv(prog, y, s2.node["args"][1]):
+                        if idx_elems & {t for t in _sub(e) if isinstance(t, tuple) and t[0] == "elem"}:
+                            same_elem = True
+                good = bool(vroots & lab_roots) and len(pushes) == 1 and same_elem and all(len(y.in_loop(s2.bb)) == len(y.in_loop(st.bb)) for s2 in pushes)
+                if good:
+                    r.ok(ex.id + "|new-id", "new id = the position its label takes in the label list (length before the push)", st.loc())
+                    len_form.append(st)
+                    for e in idx_elems:
+                        from ..prov import leaves as _lv
+
+                        for lf in _lv(e):
+                            if lf[0] == "param":
+                                found.add(lf[2])
+                    continue
             nexts = [o for o in origins(y, inner) if o.kind == "call" and callee_decl(o.data) == "core::iter::traits::iterator::Iterator::next" and o.fields and str(o.fields[-1]) == "0"]
             r.check(bool(nexts), ex.id + "|new-id", "new-id-source", "new id = enumeration index", "the new id of an argument is not its position in the component vector", st.loc())
             for o in nexts:
@@ -274,7 +311,10 @@ def rule_component_extraction(ctx):
             for l in seen:
                 if 1 <= l <= ex.n_args:
                     lab_src.add(l)
-    r.check(enum_src and enum_src <= lab_src and len(enum_src) == 1, ex.id + "|order", "order:%s/%s" % (sorted(enum_src), sorted(lab_src)), "ids and labels are derived from the same component vector in the same order", "new ids and labels are not derived from the same vector: ids would not match argument positions", ex.loc())
+    if len_form and not lab_src:
+        r.ok(ex.id + "|order", "ids are the positions of the labels in the list handed to new_with_labels", ex.loc())
+    else:
+        r.check(enum_src and enum_src <= lab_src and len(enum_src) == 1, ex.id + "|order", "order:%s/%s" % (sorted(enum_src), sorted(lab_src)), "ids and labels are derived from the same component vector in the same order", "new ids and labels are not derived from the same vector: ids would not match argument positions", ex.loc())
     # the component vector has no duplicates: membership flag set before push
     fcc = None
     for b in prog.lib_bodies():
